@@ -12,6 +12,7 @@ import WpModel.Lemmas.StackingPartition
 import WpModel.Lemmas.PaintEnv
 import WpModel.Lemmas.PaintOnce
 import WpModel.Lemmas.PaintOnceTransfer
+import WpModel.Lemmas.RoundedBox
 
 set_option linter.unusedSimpArgs false
 
@@ -433,5 +434,119 @@ example : gRoot (.node (plain 1 .BlockBox) [.node { plain 2 .LineBox with bg := 
     gInline, leavesTree, bgOf, Delta.append,
     Kind.drawOwnDecoration, Kind.drawInline, Kind.drawReplaced, Kind.dispBlockLevel, Kind.dispCell,
     Kind.drawLine, Kind.dilInlineOrLine, Kind.dilTextChild, Kind.dispStackingClass]
+
+/-! ## Rounded boxes: the rectangle and radii of every painted border, background clip and overflow clip -/
+
+section Rounded
+open Wp.Rounded
+
+/-- The corner-overlap ratio `rounded_box` scales the reduced radii with. -/
+def roundedRatio (g : Geo) (bt br bb bl : Rat) : Rat :=
+  overlapRatio
+    [(g.borderWidth - bl - br, shrink g.tl.1 bl + shrink g.tr.1 br),
+     (g.borderWidth - bl - br, shrink g.bl.1 bl + shrink g.br.1 br),
+     (g.borderHeight - bt - bb, shrink g.tl.2 bt + shrink g.bl.2 bb),
+     (g.borderHeight - bt - bb, shrink g.tr.2 bt + shrink g.br.2 bb)]
+
+/-- **Inner radius = max(0, outer radius − inset), per corner and per axis** (css-backgrounds-3 "corner
+shaping"), times the common corner-overlap ratio: the horizontal radius of a corner is reduced by the
+inset of its *vertical* side (left / right), the vertical radius by the inset of its *horizontal* side
+(top / bottom) — top-left: (left, top), top-right: (right, top), bottom-right: (right, bottom),
+bottom-left: (left, bottom). -/
+theorem rounded_box_radii (g : Geo) (bt br bb bl : Rat) :
+    let r := roundedBox g bt br bb bl
+    let ρ := roundedRatio g bt br bb bl
+    r.tl = (max 0 (g.tl.1 - bl) * ρ, max 0 (g.tl.2 - bt) * ρ) ∧
+    r.tr = (max 0 (g.tr.1 - br) * ρ, max 0 (g.tr.2 - bt) * ρ) ∧
+    r.br = (max 0 (g.br.1 - br) * ρ, max 0 (g.br.2 - bb) * ρ) ∧
+    r.bl = (max 0 (g.bl.1 - bl) * ρ, max 0 (g.bl.2 - bb) * ρ) :=
+  ⟨rfl, rfl, rfl, rfl⟩
+
+/-- The rectangle: the border box moved in by the four insets. -/
+theorem rounded_box_rect (g : Geo) (bt br bb bl : Rat) :
+    let r := roundedBox g bt br bb bl
+    r.x = g.borderBoxX + bl ∧ r.y = g.borderBoxY + bt ∧
+    r.w = g.borderWidth - bl - br ∧ r.h = g.borderHeight - bt - bb :=
+  ⟨rfl, rfl, rfl, rfl⟩
+
+/-- The ratio only shrinks, and it is positive when the rounded sides have positive length. -/
+theorem rounded_ratio_bounds (g : Geo) (bt br bb bl : Rat) :
+    roundedRatio g bt br bb bl ≤ 1 ∧
+    (0 < g.borderWidth - bl - br → 0 < g.borderHeight - bt - bb → 0 < roundedRatio g bt br bb bl) := by
+  refine ⟨overlapRatio_le_one _, fun hw hh => overlapRatio_pos _ ?_⟩
+  intro p hp _
+  simp only [List.mem_cons, List.mem_nil_iff, or_false] at hp
+  rcases hp with rfl | rfl | rfl | rfl <;> assumption
+
+/-- Without corner overlap the inner radii are exactly `max(0, outer − inset)`. -/
+theorem rounded_inner_radius (g : Geo) (bt br bb bl : Rat)
+    (h1 : shrink g.tl.1 bl + shrink g.tr.1 br ≤ g.borderWidth - bl - br)
+    (h2 : shrink g.bl.1 bl + shrink g.br.1 br ≤ g.borderWidth - bl - br)
+    (h3 : shrink g.tl.2 bt + shrink g.bl.2 bb ≤ g.borderHeight - bt - bb)
+    (h4 : shrink g.tr.2 bt + shrink g.br.2 bb ≤ g.borderHeight - bt - bb) :
+    let r := roundedBox g bt br bb bl
+    r.tl = (max 0 (g.tl.1 - bl), max 0 (g.tl.2 - bt)) ∧
+    r.tr = (max 0 (g.tr.1 - br), max 0 (g.tr.2 - bt)) ∧
+    r.br = (max 0 (g.br.1 - br), max 0 (g.br.2 - bb)) ∧
+    r.bl = (max 0 (g.bl.1 - bl), max 0 (g.bl.2 - bb)) := by
+  have hρ : roundedRatio g bt br bb bl = 1 := by
+    apply overlapRatio_eq_one
+    intro p hp _
+    simp only [List.mem_cons, List.mem_nil_iff, or_false] at hp
+    rcases hp with rfl | rfl | rfl | rfl <;> assumption
+  have := rounded_box_radii g bt br bb bl
+  simp only [hρ, Rat.mul_one] at this
+  exact this
+
+/-- Corner overlap is resolved: after scaling, the two radii on every side fit that side
+(for an inner rectangle of non-negative size). -/
+theorem rounded_corners_fit (g : Geo) (bt br bb bl : Rat)
+    (hw : 0 ≤ g.borderWidth - bl - br) (hh : 0 ≤ g.borderHeight - bt - bb) :
+    let r := roundedBox g bt br bb bl
+    r.tl.1 + r.tr.1 ≤ r.w ∧ r.bl.1 + r.br.1 ≤ r.w ∧ r.tl.2 + r.bl.2 ≤ r.h ∧ r.tr.2 + r.br.2 ≤ r.h := by
+  refine ⟨?_, ?_, ?_, ?_⟩
+  · exact scaled_sum_fits _ _ _ _ (List.mem_cons_self) (shrink_nonneg _ _) (shrink_nonneg _ _) hw
+  · exact scaled_sum_fits _ _ _ _ (List.mem_cons_of_mem _ List.mem_cons_self)
+      (shrink_nonneg _ _) (shrink_nonneg _ _) hw
+  · exact scaled_sum_fits _ _ _ _ (List.mem_cons_of_mem _ (List.mem_cons_of_mem _ List.mem_cons_self))
+      (shrink_nonneg _ _) (shrink_nonneg _ _) hh
+  · exact scaled_sum_fits _ _ _ _
+      (List.mem_cons_of_mem _ (List.mem_cons_of_mem _ (List.mem_cons_of_mem _ List.mem_cons_self)))
+      (shrink_nonneg _ _) (shrink_nonneg _ _) hh
+
+/-- The three boxes the drawing code asks for: insets 0 (border box: background clip, outer border
+edge), the border widths (padding box: inner border edge, `background-clip: padding-box`, overflow
+clip), border + padding (content box: `background-clip: content-box`). -/
+theorem rounded_named_boxes (g : Geo) :
+    roundedBorderBox g = roundedBox g 0 0 0 0 ∧
+    roundedPaddingBox g = roundedBox g g.borderTop g.borderRight g.borderBottom g.borderLeft ∧
+    roundedContentBox g = roundedBox g (g.borderTop + g.padTop) (g.borderRight + g.padRight)
+      (g.borderBottom + g.padBottom) (g.borderLeft + g.padLeft) :=
+  ⟨rfl, rfl, rfl⟩
+
+/-- `resolve_radii_percentages`: a percentage radius refers to the border-box width (horizontal) /
+height (vertical); a corner with a zero-px component, or on a side whose decoration was removed by a
+page break, has no radius. -/
+theorem resolve_corner_spec (rx ry : Dim) (removed : Bool) (bw bh : Rat) :
+    resolveCorner rx ry removed bw bh =
+      if rx.isZeroPx || ry.isZeroPx || removed then (0, 0)
+      else ((if rx.percent then bw * rx.value / 100 else rx.value),
+            (if ry.percent then bh * ry.value / 100 else ry.value)) := by
+  unfold resolveCorner percentage
+  by_cases h1 : (rx.isZeroPx || ry.isZeroPx) = true <;> by_cases h2 : removed = true <;> simp [h1, h2]
+
+/-- The seed geometry: 40px radii, border widths 4 / 10 / 30 / 10 on a 150 × 100 content box. -/
+def exGeo : Geo :=
+  { positionX := 0, positionY := 0, marginLeft := 20, marginTop := 20, borderTop := 4, borderRight := 10,
+    borderBottom := 30, borderLeft := 10, padTop := 0, padRight := 0, padBottom := 0, padLeft := 0,
+    width := 150, height := 100, tl := (40, 40), tr := (40, 40), br := (40, 40), bl := (40, 40) }
+
+example : (roundedPaddingBox exGeo).bl = (30, 10) ∧ (roundedPaddingBox exGeo).tl = (30, 36) := by
+  decide +kernel
+
+example : shrink exGeo.tl.2 exGeo.borderTop + shrink exGeo.bl.2 exGeo.borderBottom ≤
+    exGeo.borderHeight - exGeo.borderTop - exGeo.borderBottom := by decide +kernel
+
+end Rounded
 
 end Wp.C17
